@@ -498,7 +498,7 @@ func (p *Program) axiomForms(r *RuleResult) []*types.Named {
 }
 
 func runAxiomEmpty(p *Program, r *RuleResult) {
-	lin := p.Func(processPkg, "linearGammaContext")
+	lin := p.linearityFunc()
 	axioms := p.axiomForms(r)
 	byT := map[*types.Named]*tcMethod{}
 	for _, m := range p.typecheckMethods() {
@@ -759,7 +759,7 @@ func consumedTypeOf(v ssa.Value) bool {
 	switch x := v.(type) {
 	case *ssa.Extract:
 		if c, ok := x.Tuple.(*ssa.Call); ok && x.Index == 0 {
-			if sc := c.Common().StaticCallee(); sc != nil && strings.HasPrefix(sc.Name(), "consumeName") {
+			if sc := c.Common().StaticCallee(); sc != nil && looksLikeConsume(sc) {
 				return true
 			}
 		}
